@@ -305,7 +305,7 @@ def expand(m, f, row):
                 runs.append(("%s in [%d,%d]" % (row["param"], lo, hi), a, dict(base_d), (), start0))
     elif kind == "fp":
         ids = _fp_loads(m, f, row, row["fpfield"])
-        for cls in ("pinf", "ninf", "nan"):
+        for cls in row.get("classes", ("pinf", "ninf", "nan")):
             d = dict(base_d)
             for iid in ids:
                 d[iid] = ("fp", frozenset((cls,)))
